@@ -547,6 +547,8 @@ def cases(ctx):
            "overlap_add.list: every (m 0..6, size 1..10, hop 1..size, window "
            "class none/list/callable/generator, normalise on/off, size "
            "given/detected) structure, random dyadic values")
+  for _ in ctx.loop(3000, 200000):
+    yield gen_reuse_case(rng)
   for _ in ctx.loop(40000, 3000000):
     r = rng.random()
     if r < .30:
@@ -568,6 +570,81 @@ def cases(ctx):
 # --------------------------------------------------------------------------
 # monitors
 # --------------------------------------------------------------------------
+def gen_reuse_case(rng):
+  """The same user-owned window (a callable handing out its own list, or a
+  list object) serves several calls in a row."""
+  size = rng.randint(2, 8)
+  hop = rng.randint(1, size)
+  wvals = [rng.choice([0.25, 0.5, 0.75, 1.0, 1.5, 2.0, 0.125, 3.0])
+           for _ in range(size)]
+  m = rng.randint(1, 4)
+  blks = [[rng.randint(-8, 8) / 4.0 for _ in range(size)] for _ in range(m)]
+  calls = [rng.choice([True, False]) for _ in range(rng.randint(2, 4))]
+  if not any(calls[:-1]):
+    calls[0] = True
+  return ("reuse", rng.choice(["callable-shared-list", "cached-callable",
+                               "list-object", "stft-shared-callable"]),
+          size, hop, wvals, blks, calls)
+
+
+def run_reuse(ctx, case):
+  _, how, size, hop, wvals, blks, calls = case
+  owned = list(wvals)                  # the user's own window data
+  if how == "list-object":
+    wnd = owned
+  elif how == "cached-callable":
+    import functools
+    wnd = functools.lru_cache(maxsize=None)(lambda n: owned)
+  else:
+    wnd = lambda n: owned
+  ctx.count("reuse:" + how)
+  if how == "stft-shared-callable":
+    # analysis and synthesis window from the same callable, identity process
+    x = [v for blk in blks for v in blk]
+    g = gain_of(wvals, size, hop, True)
+    if g is None:
+      return False
+    for rep in range(2):
+      out = stft(lambda blk: blk, size=size, hop=hop, wnd=wnd, ola_wnd=wnd,
+                 transform=None, inverse_transform=None, before=None,
+                 after=None, ola=overlap_add.list)(list(x))
+      xb = blocks_expected(x, size, hop)
+      wb = [[frac(w) * frac(v) for w, v in zip(wvals, b)] for b in xb]
+      want, mag = ola_expected(wb, size, hop, wvals, g)
+      got, exc, hit = drain(out, limit=len(want) + size + 8)
+      if exc is not None:
+        raise exc
+      if len(got) != len(want):
+        ctx.violation("reuse/stft-length", case, got_len=len(got),
+                      want_len=len(want))
+        return True
+      if not compare(ctx, case, "reuse/stft-value-with-shared-window", got,
+                     want, mag, False, "reuse_stft", call=rep):
+        return True
+    ctx.count("reuse:calls-compared", 2)
+    return True
+  for idx, normalize in enumerate(calls):
+    g = gain_of(wvals, size, hop, normalize)
+    if g is None:
+      return False
+    want, mag = ola_expected(blks, size, hop, wvals, g)
+    out = overlap_add.list([list(b) for b in blks], size=size, hop=hop,
+                           wnd=wnd, normalize=normalize)
+    got, exc, hit = drain(out, limit=len(want) + size + 8)
+    if exc is not None:
+      raise exc
+    if len(got) != len(want):
+      ctx.violation("reuse/length", case, call=idx)
+      return True
+    exact = is_pow2(g) and small_dyadic(wvals)
+    if not compare(ctx, case, "reuse/value-on-later-call-with-same-window",
+                   got, want, mag, exact, "reuse_ola", call=idx,
+                   normalize=normalize):
+      return True
+    ctx.count("reuse:calls-compared")
+  return True
+
+
 def run_ola(ctx, case):
   _, cont, btype, size, blks, size_given, hop_arg, wspec, norm, style = case
   m = len(blks)
@@ -1001,12 +1078,18 @@ def run_case(ctx, case):
     return run_cola(ctx, case)
   if kind == "stft":
     return run_stft(ctx, case)
+  if kind == "reuse":
+    return run_reuse(ctx, case)
   if kind == "reject":
     return run_reject(ctx, case)
   raise ValueError(kind)
 
 
 def finish(ctx):
+  for how in ["callable-shared-list", "cached-callable", "list-object",
+              "stft-shared-callable"]:
+    ctx.need("reuse:" + how, 50)
+  ctx.need("reuse:calls-compared", 500)
   q = ctx.quick
   def need(key, quick, thorough=None):
     ctx.need(key, quick if q else (thorough or quick))
